@@ -44,6 +44,9 @@ THEOREMS = [
     'PbBss.C03.fixed_point_watson_balanced_hard',
     'PbBss.C03.cacg_round_hard',
     'PbBss.C03.cacg_round_hard_uniform',
+    'PbBss.C03.vmf_em_rank',
+    'PbBss.C03.vmf_em_rank_neg',
+    'PbBss.C03.vmf_em_mstep_valid',
 ]
 ASSUMPTIONS = [
     'the theorems cover the RANKING MECHANISMS of the E-step (sign of the Watson / vMF concentration, reciprocal cACG '
